@@ -4,11 +4,14 @@ import (
 	"bytes"
 	"fmt"
 	"io"
+	"reflect"
 	"strings"
+	"sync/atomic"
 
 	"github.com/parquet-go/parquet-go"
 	"github.com/parquet-go/parquet-go/compress/gzip"
 	"github.com/parquet-go/parquet-go/compress/snappy"
+	"github.com/parquet-go/parquet-go/compress/zstd"
 	"github.com/parquet-go/parquet-go/verifsched"
 	"github.com/parquet-go/parquet-go/verifsched/vsync"
 
@@ -433,6 +436,71 @@ var c15Scenarios = []c15Scenario{
 		},
 	},
 	{
+		// two independent writers of a struct type that no writer has seen
+		// before, through the reflection path: the process-wide struct field
+		// cache is filled and published by one of them while the other looks
+		// the type up
+		name:  "S7-freshStructTypeReflection",
+		cases: func(string) int { return 1 },
+		body: func(int, string) (string, func() string) {
+			return "2 writers, 1 new type", func() string {
+				n := c15TypeCounter.Add(1)
+				var fields []reflect.StructField
+				for i := 0; i < 24; i++ {
+					fields = append(fields, reflect.StructField{Name: fmt.Sprintf("F%d_%d", n, i), Type: reflect.TypeOf(int64(0)), Tag: reflect.StructTag(fmt.Sprintf(`parquet:"f%d"`, i))})
+				}
+				typ := reflect.StructOf(fields)
+				schema := parquet.SchemaOf(reflect.New(typ).Interface())
+				val := reflect.New(typ).Elem()
+				for i := 0; i < typ.NumField(); i++ {
+					val.Field(i).SetInt(int64(37 + i))
+				}
+				res := make([]string, 2)
+				var wg vsync.WaitGroup
+				for g := 0; g < 2; g++ {
+					g := g
+					c15Spawn(&wg, func() {
+						var buf bytes.Buffer
+						w := parquet.NewGenericWriter[any](&buf, schema)
+						_, err := w.Write([]any{val.Interface()})
+						cerr := w.Close()
+						res[g] = fmt.Sprintf("%v/%v/%x", errClass(err), errClass(cerr), buf.Bytes())
+					})
+				}
+				wg.Wait()
+				return strings.Join(res, " || ")
+			}
+		},
+	},
+	{
+		// two zstd codec values configured with different levels, one per goroutine:
+		// each must compress at its own level whoever ran before
+		name:  "S9-twoZstdLevels",
+		cases: func(string) int { return 1 },
+		body: func(int, string) (string, func() string) {
+			return "fastest + best", func() string {
+				codecs := []*zstd.Codec{{Level: zstd.SpeedFastest}, {Level: zstd.SpeedBestCompression}}
+				input := []byte(strings.Repeat("the quick brown fox jumps over the lazy dog, ", 40) + strings.Repeat("abcabd", 50))
+				res := make([]string, 2)
+				var wg vsync.WaitGroup
+				for g := 0; g < 2; g++ {
+					g := g
+					c15Spawn(&wg, func() {
+						var outs []string
+						for k := 0; k < 2; k++ {
+							e, err := codecs[g].Encode(nil, input)
+							d, derr := codecs[g].Decode(nil, append([]byte(nil), e...))
+							outs = append(outs, fmt.Sprintf("%v/%v/%v/%x", errClass(err), errClass(derr), bytes.Equal(d, input), e))
+						}
+						res[g] = strings.Join(outs, ";")
+					})
+				}
+				wg.Wait()
+				return strings.Join(res, " || ")
+			}
+		},
+	},
+	{
 		name:  "S8-sharedCodec",
 		cases: func(string) int { return 2 },
 		body: func(i int, _ string) (string, func() string) {
@@ -477,6 +545,8 @@ var c15Scenarios = []c15Scenario{
 // asyncOutsideSched: the serial reference of S1 uses the synchronous pages
 // (that is the sequential model the async wrapper must be equivalent to).
 var asyncOutsideSched = false
+
+var c15TypeCounter atomic.Int64
 
 func sortedJoin(s []string) string {
 	if len(s) == 2 && s[0] > s[1] {
@@ -571,7 +641,7 @@ func init() {
 		ID:    "C15",
 		Level: "model_checking",
 		MC:    true,
-		Rule: "7 scenarios on the real library under the cooperative scheduler - S1 asyncPages consumer sequences (all sequences of <=3 (4 thorough) of ReadPage / SeekToRow(0|5|11) / Close, plus use after Close) against the readPages goroutine; S2 async GenericReader with seeks; S3 two goroutines sharing one File opened with SkipPageIndex+SkipBloomFilters (lazy CAS-published offset index, column index, bloom filter, seek+read); S4 two ConcurrentRowGroupWriters filled concurrently, committed in order; S5 an independent writer next to a reader / another writer sharing the process-wide pools (pool hit/miss chosen by the explorer, poison on release); S6 one goroutine per ColumnWriter; S8 two goroutines on one codec value - x EVERY schedule within the deviation bound (1 quick, 2 thorough): a deviation is a preemption, the choice of a goroutine other than the lowest-id enabled one at a blocking point, or a pool miss; select choices are enumerated freely; " +
+		Rule: "9 scenarios on the real library under the cooperative scheduler - S1 asyncPages consumer sequences (all sequences of <=3 (4 thorough) of ReadPage / SeekToRow(0|5|11) / Close, plus use after Close) against the readPages goroutine; S2 async GenericReader with seeks; S3 two goroutines sharing one File opened with SkipPageIndex+SkipBloomFilters (lazy CAS-published offset index, column index, bloom filter, seek+read); S4 two ConcurrentRowGroupWriters filled concurrently, committed in order; S5 an independent writer next to a reader / another writer sharing the process-wide pools (pool hit/miss chosen by the explorer, poison on release); S6 one goroutine per ColumnWriter; S7 two independent writers of a struct type no writer has seen before, through the reflection path (process-wide struct field cache); S9 two zstd codec values with different levels, one per goroutine; S8 two goroutines on one codec value - x EVERY schedule within the deviation bound (1 quick, 2 thorough): a deviation is a preemption, the choice of a goroutine other than the lowest-id enabled one at a blocking point, or a pool miss; select choices are enumerated freely; " +
 			"states = distinct scheduler state hashes, transitions = scheduling steps; non-trivial = every distinct schedule",
 		Assumptions: []string{
 			"scheduling points are the library's sync / sync.atomic / channel / go operations (sequential consistency at that granularity); plain-memory data races are outside the cooperative scheduler's view and are looked for by the free-running race-detector pass of the same scenario bodies (sampling; coverage.supplement)",
